@@ -165,6 +165,7 @@ func (gp *GenginePool) getGengine() (*gengineWrapper, error) {
 		if numFree > 0 {
 			gw := gp.freeGengines[0]
 			gp.freeGengines = gp.freeGengines[1:]
+			verifPoint("pool.get.locked", gw.tag)
 			gp.runningLock.Unlock()
 			gp.getEngineLock.Unlock()
 			return gw, nil
@@ -177,6 +178,7 @@ func (gp *GenginePool) getGengine() (*gengineWrapper, error) {
 		if numAddition > 0 {
 			gw := gp.additionGengines[0]
 			gp.additionGengines = gp.additionGengines[1:]
+			verifPoint("pool.get.locked", gw.tag)
 			gp.additionLock.Unlock()
 			gp.getEngineLock.Unlock()
 			return gw, nil
@@ -189,15 +191,18 @@ func (gp *GenginePool) getGengine() (*gengineWrapper, error) {
 
 // async return gengine resource to pool,and update the rules
 func (gp *GenginePool) putGengineLocked(gw *gengineWrapper) {
+	verifPoint("pool.put.scheduled", gw.tag)
 	//addition resource
 	go func() {
 		if gw.addition {
 			gp.additionLock.Lock()
 			gp.additionGengines = append(gp.additionGengines, gw)
+			verifPoint("pool.put.done", gw.tag)
 			gp.additionLock.Unlock()
 		} else {
 			gp.runningLock.Lock()
 			gp.freeGengines = append(gp.freeGengines, gw)
+			verifPoint("pool.put.done", gw.tag)
 			gp.runningLock.Unlock()
 		}
 	}()
@@ -205,16 +210,20 @@ func (gp *GenginePool) putGengineLocked(gw *gengineWrapper) {
 
 // publish installs kc on every instance; requests see either the old or the new container, never a mix
 func (gp *GenginePool) publish(kc *base.KnowledgeContext, clear bool) {
+	verifPoint("pool.publish.before", 0)
 	gp.kcLock.Lock()
 	for i := 0; i < int(gp.max); i++ {
 		gp.rbSlice[i].Kc = kc
+		verifPoint("pool.publish.instance", int64(i))
 	}
 	gp.clear = clear
 	gp.kcLock.Unlock()
+	verifPoint("pool.publish.after", 0)
 }
 
 // snapshot gives a request its own view of the instance's rule container and data context
 func (gp *GenginePool) snapshot(tag int64) *builder.RuleBuilder {
+	verifPoint("pool.prepare.snapshot", tag)
 	gp.kcLock.RLock()
 	rb := &builder.RuleBuilder{Kc: gp.rbSlice[tag].Kc, Dc: gp.rbSlice[tag].Dc}
 	gp.kcLock.RUnlock()
